@@ -9,6 +9,8 @@ VARIABLE c
 \* mode: single-file or folder output. elsewhere: in folder mode, ANOTHER crate defines a type with the same Rust identifier
 \* as the target (plain, or carrying its own serde(rename)); the references under test are to the crate's own type, so the
 \* required name does not change.
+\* same_ident_renamed_later_crate: as same_ident_renamed, with the other crates' names sorting AFTER the crate under test (and a
+\* third crate renaming the same identifier once more)
 \* svname: the identifier of the host's struct variant, whose derived helper struct is named after it: plain (Sv), all capitals
 \* (OK), with an underscore (Rate_Limited), starting in lower case (lowerCase) - spellings a case conversion would change
 Init == c \in { r \in [kind : Kinds, renamed : BOOLEAN, prefix : Prefixes, second_renamed : BOOLEAN, mode : Modes, elsewhere : Elsewheres,
